@@ -1,6 +1,7 @@
 package harness
 
 import (
+	"github.com/hslam/rpc"
 	"fmt"
 	"sort"
 
@@ -748,6 +749,9 @@ func genC06(r *simrt.Rand, tier string, idx uint64) *Plan {
 						op.Arg = 300
 					}
 				}
+				if r.Chance(1, 10) {
+					op.Arg = shutdownTextArg // the handler's error reads "The connection is shut down"
+				}
 			case 3:
 				op.Bad = "method"
 			case 4:
@@ -819,6 +823,9 @@ func checkC06(w *World, run *simrt.Run) {
 		}
 		if c.Flags&FlFail != 0 {
 			want := ErrText(c.ID, int(c.Arg))
+			if c.Arg == shutdownTextArg {
+				want = rpc.ErrShutdown.Error()
+			}
 			if c.Err != want {
 				w.Violate("C06.error-text", "handler-error-text-differs:"+w.P.Header, fmt.Sprintf("%s: got %q, handler returned %q", descCall(c), clip(c.Err), clip(want)))
 			}
